@@ -272,5 +272,5 @@ def jobs(tier):
     # statistics are taken on the vector form of function-value samples: the conversion contracts of C13 (column k of the vector form
     # is fun2vec of sample k, also for column-major images and mapped geometries) are claimed for this property as well
     from contracts import C13 as _c13
-    J += [j for j in _c13.jobs(tier) if j.id.endswith(':Samples_conversions') and j.id.split(':Samples')[0] in ('Image2D:F', 'Image2D:C', 'Mapped:Image2D', 'Continuous2D')]
+    J += [j for j in _c13.jobs(tier) if (j.id.endswith(':Samples_conversions') or j.id.endswith(':Samples_conversions:one_sample')) and j.id.split(':Samples')[0] in ('Image2D:F', 'Image2D:C', 'Mapped:Image2D', 'Continuous2D')]
     return J
